@@ -159,7 +159,7 @@ Proof. exact heq_feq. Qed.
 Print Assumptions C14_hash_equal_implies_eq.
 
 (* 11. comprehensions: the qualifier machinery (generators left to right, repeated variables join,
-       filters) computes, for all lists, ... the elements themselves, *)
+       filters; [QGen]: a generator over a constant collection) computes, for all lists, ... the elements themselves, *)
 Theorem C14_comp_identity : forall x A, comp_values (TVar x) [QGen (PVar x) A] = Some A.
 Proof. exact comp_identity. Qed.
 Print Assumptions C14_comp_identity.
@@ -187,6 +187,110 @@ Theorem C14_comp_filter : forall x o c A,
 Proof. exact comp_filter_const. Qed.
 Print Assumptions C14_comp_filter.
 
+(* 12. dependent generators: a generator whose collection is a set literal over earlier variables
+       ([KSet]) or a variable bound earlier to a set ([KVar]).  The environments after it are the
+       concatenation, over the environments before it IN ORDER, of the matches against the collection
+       evaluated IN THAT environment ([coll_elems e c]: once per environment, not once per generator) ... *)
+Theorem C14_dependent_generator_per_environment : forall p c envs (cs : env -> list val),
+  (forall e, In e envs -> coll_elems e c = Some (cs e)) ->
+  step_qual envs (QGenD p c) = Some (flat_map (fun e => gen_matches p e (cs e)) envs).
+Proof. exact gend_per_environment. Qed.
+Print Assumptions C14_dependent_generator_per_environment.
+
+(* ... one environment at a time, the first error aborting, no environment meaning no evaluation at all ... *)
+Theorem C14_dependent_generator_unfold : forall p c,
+  step_qual [] (QGenD p c) = Some [] /\
+  forall e envs,
+    step_qual (e :: envs) (QGenD p c) =
+    match coll_elems e c, step_qual envs (QGenD p c) with
+    | Some l, Some r => Some (gen_matches p e l ++ r)
+    | _, _ => None
+    end.
+Proof. exact (fun p c => conj (gend_nil p c) (gend_cons p c)). Qed.
+Print Assumptions C14_dependent_generator_unfold.
+
+(* ... so that it raises an error exactly when the collection is no set / unbound / of mixed kinds in one of
+   the environments that reach it (an empty list of environments never does) *)
+Theorem C14_dependent_generator_error : forall p c envs,
+  step_qual envs (QGenD p c) = None <-> exists e, In e envs /\ coll_elems e c = None.
+Proof. exact gend_error. Qed.
+Print Assumptions C14_dependent_generator_error.
+
+(* evaluating the collection once (in the first environment) is the same function only while the collection
+   does not depend on the environment ... *)
+Theorem C14_hoisted_agrees_on_constant_collections : forall p c envs,
+  (forall e e', In e envs -> In e' envs -> coll_elems e c = coll_elems e' c) ->
+  step_hoisted envs (QGenD p c) = step_qual envs (QGenD p c).
+Proof. exact hoisted_agrees_on_constant_collections. Qed.
+Print Assumptions C14_hoisted_agrees_on_constant_collections.
+
+(* ... and is refuted by { y | x <- {{1,2},{3,4}}, y <- x } = {1,2,3,4}: the hoisted reading loses 3 *)
+Theorem C14_refuted_hoisted_generator :
+  wf_case wit_flatten = true /\
+  expected wit_flatten = ESet [u8 1; u8 2; u8 3; u8 4] /\
+  exists out qs vs vs', wit_flatten = CComp out qs /\
+  comp_values out qs = Some vs /\ comp_values_hoisted out qs = Some vs' /\
+  inS (u8 3) vs /\ ~ inS (u8 3) vs'.
+Proof. exact hoisting_refuted. Qed.
+Print Assumptions C14_refuted_hoisted_generator.
+
+(* 13. the set-builder reading, for EVERY qualifier list (any number of generators of either sort, any
+       patterns, filters anywhere): the environments produced are exactly those reached by choosing for each
+       generator in turn an element of its collection as evaluated under the choices made so far ([qsteps]) ... *)
+Theorem C14_comp_environments : forall qs envs envs', run_from envs qs = Some envs' ->
+  forall e', In e' envs' <-> exists e, In e envs /\ qsteps e qs e'.
+Proof. exact run_spec. Qed.
+Print Assumptions C14_comp_environments.
+
+(* ... a comprehension that has a value denotes a set: no two equal elements; v is an element iff
+   v = out[e] for bindings e reachable through the qualifiers; every listed element is such an out[e] (hence has
+   its kind); and every duplicate-free listing of these elements has the same size ... *)
+Theorem C14_comp_set_builder : forall out qs E, expected (CComp out qs) = ESet E ->
+  NoDupA veqP E /\
+  (forall v, inS v E <-> builder_reading out qs v) /\
+  (forall w, In w E -> exists e, qsteps [] qs e /\ eval_term e out = Some w) /\
+  (forall E', nodupb veq E' = true -> (forall v, inS v E' <-> builder_reading out qs v) ->
+              List.length E' = List.length E).
+Proof. exact comp_expected_spec. Qed.
+Print Assumptions C14_comp_set_builder.
+
+(* ... and it has NO value (error) exactly when some dependent generator's collection cannot be evaluated
+   under bindings reached through the qualifiers before it *)
+Theorem C14_comp_error : forall qs envs,
+  run_from envs qs = None <->
+  exists qs1 p c qs2 e0 e,
+    qs = qs1 ++ QGenD p c :: qs2 /\ In e0 envs /\ qsteps e0 qs1 e /\ coll_elems e c = None.
+Proof. exact run_error. Qed.
+Print Assumptions C14_comp_error.
+
+Theorem C14_comp_error_expected : forall out qs, expected (CComp out qs) = EErr ->
+  exists qs1 p c qs2 e, qs = qs1 ++ QGenD p c :: qs2 /\ qsteps [] qs1 e /\ coll_elems e c = None.
+Proof. exact comp_error_spec. Qed.
+Print Assumptions C14_comp_error_expected.
+
+(* 14. the dependent shapes, for all lists: flattening a list of sets is their union, *)
+Theorem C14_comp_flatten : forall x y S, String.eqb x y = false ->
+  (forall s, In s S -> exists k n l, s = VSet k n l) ->
+  comp_values (TVar y) [QGen (PVar x) S; QGenD (PVar y) (KVar x)] = Some (flat_map elems_of S) /\
+  forall v, inS v (flat_map elems_of S) <-> exists s, In s S /\ inS v (elems_of s).
+Proof. exact (fun x y S H1 H2 => conj (comp_flatten x y S H1 H2) (comp_flatten_is_union S)). Qed.
+Print Assumptions C14_comp_flatten.
+
+(* ... { y | x <- A, y <- {x, c} } lists {a, c} for every a of A, *)
+Theorem C14_comp_dependent_literal : forall x y c A, String.eqb x y = false ->
+  (forall a, In a A -> kind_text c = kind_text a) ->
+  comp_values (TVar y) [QGen (PVar x) A; QGenD (PVar y) (KSet [TVar x; TConst c])] =
+  Some (flat_map (fun a => of_list veq [a; c]) A).
+Proof. exact comp_dep_literal. Qed.
+Print Assumptions C14_comp_dependent_literal.
+
+(* ... and { (x,y) | x <- A, y <- {x} } is the diagonal *)
+Theorem C14_comp_dependent_diagonal : forall x y A, String.eqb x y = false ->
+  comp_values (TPair (TVar x) (TVar y)) [QGen (PVar x) A; QGenD (PVar y) (KSet [TVar x])] =
+  Some (map (fun a => VTup [a; a]) A).
+Proof. exact comp_dep_diagonal. Qed.
+Print Assumptions C14_comp_dependent_diagonal.
+
 (* ---- non-vacuity ---- *)
 (* the judge on real lines: a correct union written out of order with repetitions is accepted ... *)
 Example C14_example_ok :
@@ -210,6 +314,21 @@ Example C14_example_kf :
   = "(bad duplicate-elements (set-of 1))"%string.
 Proof. split; vm_compute; reflexivity. Qed.
 Print Assumptions C14_example_kf.
+
+(* a dependent generator on real lines: { y | x <- {{1,2},{3,4}}, y <- x } must be {1,2,3,4}; the value obtained by
+   evaluating `x` once is rejected; where the model predicts an error the verdict is advisory;
+   { y | (k,s) <- {(1,{1,2}),(2,{3,4})}, y <- s, k > 1 } = {3,4} *)
+Example C14_example_dependent_generator :
+  run_line "((comp (v y) ((gen (v x) ((set """" 0 ((s u8 1) (s u8 2))) (set """" 0 ((s u8 3) (s u8 4))))) (gend (v y) (var x)))) (multi (set ""u8"" 4 ((s u8 1) (s u8 2) (s u8 3) (s u8 4)))))"
+  = "(ok set)"%string /\
+  run_line "((comp (v y) ((gen (v x) ((set """" 0 ((s u8 1) (s u8 2))) (set """" 0 ((s u8 3) (s u8 4))))) (gend (v y) (var x)))) (multi (set ""u8"" 2 ((s u8 1) (s u8 2)))))"
+  = "(bad wrong-elements (set-of 4))"%string /\
+  run_line "((comp (v y) ((gen (v x) ((s u8 1) (s u8 2))) (gend (v y) (var x)))) (multi (err ""ComprehensionGenerator"")))"
+  = "(adv generator-error)"%string /\
+  run_line "((comp (v y) ((gen (pair (v k) (v s)) ((tuple (s u8 1) (set """" 0 ((s u8 1) (s u8 2)))) (tuple (s u8 2) (set """" 0 ((s u8 3) (s u8 4)))))) (gend (v y) (var s)) (flt gt (v k) (c (s u8 1))))) (multi (set ""u8"" 2 ((s u8 3) (s u8 4)))))"
+  = "(ok set)"%string.
+Proof. repeat split; vm_compute; reflexivity. Qed.
+Print Assumptions C14_example_dependent_generator.
 
 (* the hypotheses of C14_holds are satisfiable: {1,2,1} ∪ {2,3} over u8 *)
 Example C14_example_holds :
